@@ -509,6 +509,11 @@ func (e *Engine) runUnit(f *fx, c *Contract) {
 			f.oblige("nopanic", fmt.Sprintf("nopanic#%d", i), not(p.cond), nil, where, "function declared nopanic may panic here ("+p.what+")")
 			continue
 		}
+		if !c.AnyPanic && p.pval.S != "" {
+			// the panic value leaving the function is an error (callers rely on it: recover() paths convert it)
+			errID := f.e.sorts.ifaceID(types.Universe.Lookup("error").Type())
+			f.oblige("exsures", fmt.Sprintf("panic-value-is-an-error#%d", i), T("Bool", "(implements (itag %s) %d)", p.pval.S, errID), nil, where, "a function not declared anypanic panics only with error values ("+p.what+")")
+		}
 		env := f.topEnv.withState(p.state, entry)
 		for k, ex := range c.Exsures {
 			g := f.specBool(ex, env)
